@@ -234,6 +234,10 @@ def run_inproc(spec, result_file=None, seed_kw=True, log=None, config=(1, 0, 0))
     return res, objs, sink
 
 
+class InvalidSpec(Exception):
+    """The generated experiment cannot even be constructed (e.g. materialize() of an unreadable pipeline)."""
+
+
 def run_simulated(spec, config, seed, choices=None, result_file=None, knobs=None, prebuilt=None, max_steps=60000):
     """Real Experiment.run on the simulated multiprocessing layer under one seeded schedule."""
     knobs = knobs or {}
@@ -252,7 +256,10 @@ def run_simulated(spec, config, seed, choices=None, result_file=None, knobs=None
         sim.opcode_points = (sim.opcode_points or set()) | {(f_, k_ + d, o) for d in (0, 1) for o in range(0, 160)}
     sink = ListSinkH()
     quiet_context(sink)
-    exp, objs = prebuilt if prebuilt is not None else build_experiment(spec)
+    try:
+        exp, objs = prebuilt if prebuilt is not None else build_experiment(spec)
+    except Exception as e:
+        raise InvalidSpec(repr(e))
     kw = dict(processes=config[0], maxchunksperchild=config[1], maxtasksperchunk=config[2], quiet=spec.get("quiet", True))
     if "seed" in spec:
         kw["seed"] = spec["seed"]
